@@ -1147,6 +1147,9 @@ async def _e2e_history(case, ctx=None, rows=None):
                     rows.append((t, op, perms, accepted, rejected, notified, r, raised, wire.replies[nrep:] if wire is not None else None))
             elif kind == "read":
                 P = read_oracle(t, op, log, r, raised, ctx)
+                if rows is not None and t == "ble" and raised is None and isinstance(r, dict):
+                    # for the Lean model of the BLE read path (bleGet): what the accessory answered per item, and the result
+                    rows.append(("bleread", op, None, {iid: (st, v) for k0, iid, st, v in log if k0 == "read"}, None, None, r, None, None))
             else:
                 P = subscribe_oracle(t, op, log, r, raised)
         except Exception as e:  # noqa: BLE001 - a result so malformed that it cannot even be inspected
@@ -1288,7 +1291,7 @@ def e2e_cases(ctx, rng):
 
 
 def e2e_streams(ctx, driver, rng):
-    cases, outs, lines = {"coapwrite-e2e": [], "blewrite-e2e": [], "ipwrite-e2e": []}, {}, {}
+    cases, outs, lines = {"coapwrite-e2e": [], "blewrite-e2e": [], "ipwrite-e2e": [], "bleread-e2e": []}, {}, {}
     for k in cases:
         outs[k], lines[k] = [], []
     sampled = set()
@@ -1326,6 +1329,22 @@ def e2e_streams(ctx, driver, rng):
         # tie the end-to-end outcomes to the Lean models of the write paths as well
         for (tt, op, perms, accepted, rejected, notified, r, raised, replies) in rows:
             items = op["items"]
+            if tt == "bleread":
+                answered = accepted
+                if any(i["iid"] not in answered for i in items) or not all(isinstance(x, tuple) and isinstance(e, dict) and set(e) == {"value"} for x, e in r.items()):
+                    continue  # an item the accessory never saw, or a result that is not values-only: the oracle's business, not the model's
+                names = {}
+
+                def vname(v):
+                    return names.setdefault(repr(v), len(names))
+                toks = []
+                for i in items:
+                    st, v = answered[i["iid"]]
+                    toks.append(f"{i['aid']}.{i['iid']}:" + (f"r{st}" if st else f"v{vname(v)}"))
+                lines["bleread-e2e"].append("cl.bleget " + " ".join(toks))
+                outs["bleread-e2e"].append(",".join(sorted(f"{a}.{i}={vname(e['value'])}" for (a, i), e in r.items())) or "-")
+                cases["bleread-e2e"].append({"stream": "e2e", "transport": "ble", "layout": case["layout"], "ops": [op]})
+                continue
             k = tt + "write-e2e"
             if not all(isinstance(x, tuple) and len(x) == 2 for x in list(notified) + list(r or {})):
                 continue
@@ -1350,7 +1369,7 @@ def e2e_streams(ctx, driver, rng):
             cases[k].append({"stream": "e2e", "transport": tt, "layout": case["layout"], "ops": [op]})
     for k in cases:
         if cases[k]:
-            compare_with_model(ctx, k, cases[k], outs[k], lines[k], driver)
+            compare_with_model(ctx, k, cases[k], outs[k], lines[k], driver, canon=(lambda x: ",".join(sorted(x.split(",")))) if k == "bleread-e2e" else (lambda x: x))
 
 
 def replay(ctx, driver, c):
